@@ -44,9 +44,17 @@ fn fixed_point_from(out: &mut Out, rng: &mut Rng, what: &str, a: Fmt, b: Fmt, in
 		if !again.ok() || again.output != first.output {
 			// TOML: the three-pass order of the toml crate is not idempotent in
 			// general; recognise known finding K4 by comparing values.
-			let class = if b == Fmt::Toml && a == Fmt::Json && matches!(first_supply, Supply::Slice) && crate::props::c02::json_has_toml_datetime_key(input) {
-				// K11: only the slice path of JSON → TOML writes the private key as a table
-				"K11-json-toml-datetime-key"
+			let magic = b"$__toml_private_datetime";
+			let has_magic = input.windows(magic.len()).any(|w| w == magic);
+			let class = if has_magic {
+				// K11: only the SLICE path of JSON → TOML writes the private key as a
+				// table (anything else about that key is not a known finding; the
+				// value reader used for K4 below cannot tell the two spellings apart)
+				if b == Fmt::Toml && a == Fmt::Json && matches!(first_supply, Supply::Slice) {
+					"K11-json-toml-datetime-key"
+				} else {
+					""
+				}
 			} else if b == Fmt::Toml {
 				match (read_docs(Fmt::Toml, &first.output), read_docs(Fmt::Toml, &again.output)) {
 					(Ok(x), Ok(y)) if again.ok() && x.len() == 1 && y.len() == 1 && x[0].toml_written_order() == y[0] => "K4-toml-three-groups",
